@@ -27,6 +27,8 @@ pub struct ChildArgs {
     pub strata: Vec<String>,
     pub max_minimise: usize,
     pub run_timeout_s: u64,
+    /// merged solo table written by the supervisor (None: compute the whole table here)
+    pub solo_table: Option<String>,
 }
 
 fn emit(v: serde_json::Value) {
@@ -61,7 +63,7 @@ fn outcome_hash(o: &Outcome, steps: u32) -> u64 {
         Outcome::Budget(n) => f.str(&format!("budget {n}")),
         Outcome::Crashed => f.str("crashed"),
         Outcome::ParseFail(m) => f.str(&format!("parse {m}")),
-        Outcome::Died(m) => f.str(&format!("died {m}")),
+        Outcome::Died(_) => f.str("died"), // how (signal, which timeout) is not part of the result
     }
     f.0
 }
@@ -92,6 +94,82 @@ pub fn load(workload_dir: &str, key_seed: u64, progress: bool, timeout: Duration
         info.push(TaskInfo { ok, steps: r.steps, sites: r.sites.clone(), ndiags });
     }
     Loaded { tasks, refs, info, solo_hashes, solo_violations, parse_failures, modules: mods.len() }
+}
+
+/// Which children compute the solo result of task `idx`: `REPLICAS` different processes with
+/// different hash keys (the "fresh process" clause), instead of every child computing everything.
+pub const REPLICAS: u64 = 3;
+pub fn slice_owners(idx: u64, of: u64) -> Vec<u64> {
+    let mut v: Vec<u64> = vec![];
+    for r in 0..REPLICAS.min(of) {
+        let o = (idx + r * (of / REPLICAS.min(of)).max(1)) % of;
+        if !v.contains(&o) {
+            v.push(o);
+        }
+    }
+    v
+}
+
+/// `solo-slice`: this process's share of stratum 1, written as JSON lines to `out`.
+pub fn slice_main(workload_dir: &str, seed: u64, index: u64, of: u64, out: &str, timeout: Duration) -> i32 {
+    let t0 = std::time::Instant::now();
+    let key_seed = mix(seed ^ 0x50_10 ^ (index << 20));
+    let mods = workload::discover(workload_dir);
+    let tasks = workload::tasks(&mods);
+    let mut refs = References::new(key_seed, timeout);
+    let mut lines = String::new();
+    let mut n = 0u64;
+    for (i, t) in tasks.iter().enumerate() {
+        let owners = slice_owners(i as u64, of);
+        if !owners.contains(&index) {
+            continue;
+        }
+        n += 1;
+        let r = refs.get(t);
+        let primary = owners[0] == index;
+        let v = json!({"idx": i, "key": t.key(), "hash": format!("{:016x}", outcome_hash(&r.outcome, r.steps)), "solo": if primary { serde_json::to_value(&*r).unwrap() } else { serde_json::Value::Null }});
+        lines.push_str(&v.to_string());
+        lines.push('\n');
+    }
+    if std::fs::write(out, lines).is_err() {
+        return 2;
+    }
+    emit(json!({"slice_done": {"index": index, "tasks": tasks.len(), "modules": mods.len(), "computed": n, "ms": t0.elapsed().as_millis() as u64}}));
+    0
+}
+
+/// Stratum 1 from the merged table the supervisor wrote.
+pub fn load_table(workload_dir: &str, table: &str, key_seed: u64, timeout: Duration) -> Result<Loaded, String> {
+    let mods = workload::discover(workload_dir);
+    let tasks = workload::tasks(&mods);
+    let text = std::fs::read_to_string(table).map_err(|e| format!("{table}: {e}"))?;
+    let solos: Vec<crate::sched::SoloResult> = serde_json::from_str(&text).map_err(|e| format!("{table}: {e}"))?;
+    if solos.len() != tasks.len() {
+        return Err(format!("{table}: {} entries for {} workload tasks", solos.len(), tasks.len()));
+    }
+    let mut refs = References::new(key_seed, timeout);
+    let mut info = vec![];
+    let mut solo_hashes = vec![];
+    let mut solo_violations: Vec<Violation> = vec![];
+    let mut parse_failures = vec![];
+    for (i, (t, r)) in tasks.iter().zip(solos).enumerate() {
+        let ok = matches!(r.outcome, Outcome::Returned(_));
+        if let Outcome::ParseFail(m) = &r.outcome {
+            parse_failures.push(format!("{}: {}", t.key(), m));
+        }
+        if let Outcome::Died(_) = &r.outcome {
+            // somebody already paid for finding out that this module never finishes
+            refs.timeout = refs.timeout.min(Duration::from_secs(3));
+        }
+        let ndiags = if let Outcome::Returned(o) = &r.outcome { o.diags.len() as u32 } else { 0 };
+        if let Some(v) = oracle::check_solo(i, t, &r) {
+            solo_violations.push(v);
+        }
+        solo_hashes.push((t.key(), outcome_hash(&r.outcome, r.steps)));
+        info.push(TaskInfo { ok, steps: r.steps, sites: r.sites.clone(), ndiags });
+        refs.preload(t, r);
+    }
+    Ok(Loaded { tasks, refs, info, solo_hashes, solo_violations, parse_failures, modules: mods.len() })
 }
 
 #[derive(Default)]
@@ -162,13 +240,24 @@ fn sanitize(s: &str) -> String {
 pub fn child_main(a: ChildArgs) -> i32 {
     let t0 = std::time::Instant::now();
     let key_seed = mix(a.seed ^ 0x50_10 ^ (a.index << 20));
-    let ld = load(&a.workload_dir, key_seed, true, Duration::from_secs(a.run_timeout_s));
+    let ld = match &a.solo_table {
+        Some(p) => match load_table(&a.workload_dir, p, key_seed, Duration::from_secs(a.run_timeout_s)) {
+            Ok(l) => l,
+            Err(e) => {
+                emit(json!({"done": {"index": a.index, "harness_errors": [format!("solo table: {e}")]}}));
+                return 2;
+            }
+        },
+        None => load(&a.workload_dir, key_seed, true, Duration::from_secs(a.run_timeout_s)),
+    };
     let Loaded { tasks, mut refs, info, solo_hashes, solo_violations, parse_failures, modules } = ld;
-    emit(json!({"solo_table": {"tasks": tasks.len(), "modules": modules, "ms": t0.elapsed().as_millis() as u64,
-        "hashes": solo_hashes.iter().map(|(k,h)| json!([k, format!("{h:016x}")])).collect::<Vec<_>>(),
-        "parse_failures": parse_failures,
-        "steps_total": info.iter().map(|i| i.steps as u64).sum::<u64>(),
-    }}));
+    if a.solo_table.is_none() {
+        emit(json!({"solo_table": {"tasks": tasks.len(), "modules": modules, "ms": t0.elapsed().as_millis() as u64,
+            "hashes": solo_hashes.iter().map(|(k,h)| json!([k, format!("{h:016x}")])).collect::<Vec<_>>(),
+            "parse_failures": parse_failures,
+            "steps_total": info.iter().map(|i| i.steps as u64).sum::<u64>(),
+        }}));
+    }
 
     let mut seen_sigs: HashSet<(String, String, String)> = HashSet::new();
     let mut minimised = 0usize;
